@@ -177,6 +177,9 @@ def synth_element(rng, el, with_neg=None, max_charge=None):
     if with_neg if with_neg is not None else rng.random() < 0.4:
         out[el + "-"] = _sp.Monatomic(el + "-", {el: 1}, M + 5.4858e-7, -1, rng.uniform(0.5, 3.0) * EV, [[0.5, 0.0]],
                                       10 ** rng.uniform(-30.5, -29.5), 2, None, None, [], ["synthetic"])
+        if rng.random() < 0.35:   # a doubly negative ion: the negative reference-energy chain has two links
+            out[el + "--"] = _sp.Monatomic(el + "--", {el: 1}, M + 2 * 5.4858e-7, -2, rng.uniform(0.1, 1.0) * EV, [[0.0, 0.0]],
+                                           10 ** rng.uniform(-30.5, -29.5), 1, None, None, [], ["synthetic"])
     return out, M
 
 
